@@ -110,6 +110,15 @@ impl fmt::Display for Delete {
     }
 }
 
+/// Maps the empty string to null: the file format stores both as a zero
+/// string reference.
+fn normalize_value(value: Value) -> Value {
+    match value {
+        Value::Str(ref string) if string.is_empty() => Value::Null,
+        value => value,
+    }
+}
+
 // ========================================================================= //
 
 /// A database query to insert new rows.
@@ -171,6 +180,13 @@ impl Insert {
                 // TODO: Validate foreign keys.
             }
         }
+        // An empty string is stored as (and reads back as) a null value, so
+        // treat it as one from here on, in particular when comparing keys.
+        let new_rows: Vec<Vec<Value>> = self
+            .new_rows
+            .into_iter()
+            .map(|values| values.into_iter().map(normalize_value).collect())
+            .collect();
         // Read in the rows from the table.
         let stream_name = table.stream_name();
         let key_indices = table.primary_key_indices();
@@ -196,7 +212,7 @@ impl Insert {
         // Check if any of the new rows already exist in the table (or conflict
         // with each other).
         let mut new_keys_set = HashSet::<Vec<Value>>::new();
-        for values in self.new_rows.iter() {
+        for values in new_rows.iter() {
             let keys: Vec<Value> = key_indices
                 .iter()
                 .map(|&index| values[index].clone())
@@ -217,7 +233,7 @@ impl Insert {
             new_keys_set.insert(keys);
         }
         // Insert the new rows into the table.
-        for values in self.new_rows.into_iter() {
+        for values in new_rows.into_iter() {
             let keys: Vec<Value> = key_indices
                 .iter()
                 .map(|&index| values[index].clone())
